@@ -1,8 +1,9 @@
 """C13 — every reported observable equals its definition on the current state (DESIGN.md C13).
 
 Proof: coq/Properties/C13.v (all N / all masks / every commutative ring with involution; ranges over C).
-Tie: the Gallina models coq/Model/SvObs.v (emu_sv/custom_callback_implementations.py) and coq/Model/MpsPad.v
-(emu_mps/utils.py padding functions), executed at the dyadic Gaussian rationals / Gaussian integers, are compared
+Tie: the Gallina models coq/Model/SvObs.v (emu_sv/custom_callback_implementations.py), coq/Model/MpsPad.v
+(emu_mps/utils.py padding functions) and coq/Model/MpsObs.v (MPS.expect_batch, qubit_occupation_mps_impl; torch.linalg.qr
+interposed by integer oracles), executed at the dyadic Gaussian rationals / Gaussian integers, are compared
 EXACTLY with the real torch code on Gaussian-integer data.
 Falsifier: every built-in observable of both backends on random (unnormalised, non-canonical) complex states of
 1-8 atoms against dense formulas, incl. the dark-atom padding path of MPSBackendImpl.fill_results.
@@ -13,7 +14,7 @@ import math
 
 from vlib import common
 from props.c06 import dy, dyl, cplx, _gi, TOL
-from props.c11 import raws, chain, natlist, dense as dense_chain, as3, rand_gi_chain, abs_bound
+from props.c11 import raws, chain, natlist, dense as dense_chain, as3, rand_gi_chain, abs_bound, rand_gi_tensor
 
 HEADER_SV = """From Coq Require Import ZArith List Bool.
 Import ListNotations.
@@ -412,6 +413,200 @@ def oracle_pad(ctx, c, out):
             ctx.violation(f"padded amplitude/element at {b} is {complex(Dp[tuple(b)])}, definition gives {want}",
                           {"case": c, "finding_key": "pad-amplitude"})
             return
+
+
+# ------------------------------------------------------------------------------------------------
+# exact cases, MPS.expect_batch / qubit_occupation_mps_impl (Model/MpsObs.v).  torch.linalg.qr is an oracle of the
+# model (only its R factor is used by the code); for the exact comparison the name `torch` of emu_mps.mps is rebound to
+# a proxy whose linalg.qr returns (None, R) with R computed by the SAME integer oracle as in the model:
+#   qr_id : R = M (a legitimate factorisation M = 1 * M: Gram-preserving, the premise of the C13 theorems)
+#   qr_mix: a deliberately wrong R of the reduced shape; model and code must still agree on whatever comes out
+HEADER_OBS = """From Coq Require Import ZArith List Bool.
+Import ListNotations.
+From EV Require Import Model.TransferMat Model.MPSAlg Model.MpsObs.
+Open Scope Z_scope."""
+
+
+def _qr_id(M):
+    return M.clone()
+
+
+def _qr_mix(M):
+    import torch
+    m, n = M.shape
+    k = min(m, n)
+    return torch.stack([(i + 1) * M[m - 1 - i] + 1j * M[i] for i in range(k)])
+
+
+def _qr_mix_abs(M):
+    import torch
+    m, n = M.shape
+    return torch.stack([(i + 1) * M[m - 1 - i] + M[i] for i in range(min(m, n))])
+
+
+QR_ORACLES = {"qr_id": _qr_id, "qr_mix": _qr_mix, "abs:qr_id": _qr_id, "abs:qr_mix": _qr_mix_abs}
+
+
+def _obs_magnitude(fs, d, c, oracle):
+    """bound on the modulus of every intermediate of expect_batch on this chain: the same sweep on the entrywise
+    |re|+|im| data (all terms non-negative) with the operator 4 * ones; must stay far below 2**53 for float64 exactness"""
+    import torch
+    from emu_mps.mps import MPS
+    afs = [(t.real.abs() + t.imag.abs()).to(torch.complex128) for t in fs]
+    st = MPS(afs, orthogonality_center=c, num_gpus_to_use=0, eigenstates=_eig(d))
+    with qr_oracle("abs:" + oracle):
+        T = st.expect_batch(4 * torch.ones(1, d, d, dtype=torch.complex128))
+    return float(T.real.max())
+
+
+class _LinQR:
+    def __init__(self, real, oracle, log):
+        self._real, self._oracle, self._log = real, oracle, log
+
+    def qr(self, M, *a, **k):
+        assert not a and not k and M.ndim == 2
+        self._log.append(list(M.shape))
+        return None, self._oracle(M)
+
+    def __getattr__(self, n):
+        return getattr(self._real.linalg, n)
+
+
+class _TorchQR:
+    def __init__(self, real, oracle, log):
+        self._real = real
+        self.linalg = _LinQR(real, oracle, log)
+
+    def __getattr__(self, n):
+        return getattr(self._real, n)
+
+
+class qr_oracle:
+    """inside: emu_mps.mps sees torch.linalg.qr = the integer oracle; self.calls = shapes of the matrices factorised"""
+
+    def __init__(self, name):
+        self.oracle, self.calls = QR_ORACLES[name], []
+
+    def __enter__(self):
+        import torch
+        import emu_mps.mps as m
+        self.m, self.saved = m, m.torch
+        m.torch = _TorchQR(torch, self.oracle, self.calls)
+        return self
+
+    def __exit__(self, *a):
+        self.m.torch = self.saved
+
+
+def _unit(rng):
+    return rng.choice([1, -1, 1j, -1j])
+
+
+def _iso(rng, rows, cols):
+    """rows x cols Gaussian-integer matrix with orthonormal columns (cols <= rows): unit phases on distinct rows"""
+    import torch
+    M = torch.zeros(rows, cols, dtype=torch.complex128)
+    for j, i in enumerate(rng.sample(range(rows), cols)):
+        M[i, j] = _unit(rng)
+    return M
+
+
+def gen_obs_case(rng, canonical):
+    import torch
+    d = rng.choice([2, 2, 3])
+    n = rng.randint(2, 5 if d == 2 else 4)
+    c = rng.randrange(n)
+    if canonical:  # the declared centre is truthful: isometries left and right of it, anything at the centre
+        bonds = [1] * (n + 1)
+        for i in range(1, c + 1):
+            bonds[i] = rng.randint(1, min(3, bonds[i - 1] * d))
+        for i in range(n - 1, c, -1):
+            bonds[i] = rng.randint(1, min(3, bonds[i + 1] * d))
+        fs = []
+        for i in range(n):
+            l, r = bonds[i], bonds[i + 1]
+            if i < c:
+                fs.append(_iso(rng, l * d, r).reshape(l, d, r))
+            elif i > c:
+                fs.append(_iso(rng, d * r, l).T.reshape(l, d, r).contiguous())
+            else:
+                fs.append(rand_gi_tensor(rng, (l, d, r), 0.8, amp=3))
+        oracle = "qr_id"
+    else:
+        density = rng.choice([1.0, 0.7, 0.5])
+        oracle = rng.choice(["qr_id", "qr_mix", "qr_mix"])
+        while True:
+            bonds = [1] + [rng.randint(1, 3) for _ in range(n - 1)] + [1]
+            fs = [rand_gi_tensor(rng, (bonds[i], d, bonds[i + 1]), density, amp=rng.choice([1, 1, 2])) for i in range(n)]
+            if abs_bound(fs) < 2.0 ** 10 and _obs_magnitude(fs, d, c, oracle) < 2.0 ** 46:
+                break
+            density *= 0.7
+    nops = rng.randint(1, 3)
+    ops = [[[_gi(rng, 2) for _ in range(d)] for _ in range(d)] for _ in range(nops)]
+    return {"kind": "mps_expect", "d": d, "n": n, "center": c, "canonical": canonical, "oracle": oracle, "ops": ops,
+            "factors": [[list(t.shape), [[z.real, z.imag] for z in _tl(t)]] for t in fs]}
+
+
+def impl_obs(c):
+    """REAL MPS.expect_batch and qubit_occupation_mps_impl under the integer QR oracle"""
+    import torch
+    import emu_mps.custom_callback_implementations as mci
+    from emu_mps.mps import MPS
+
+    fs = _factors_of(c)
+    ops = torch.tensor([[[complex(*z) for z in row] for row in op] for op in c["ops"]], dtype=torch.complex128)
+    st = MPS([t.clone() for t in fs], orthogonality_center=c["center"], num_gpus_to_use=0, eigenstates=_eig(c["d"]))
+    with qr_oracle(c["oracle"]) as q:
+        res = st.expect_batch(ops)
+        n1 = len(q.calls)
+        occ = mci.qubit_occupation_mps_impl(None, config=None, state=st, hamiltonian=None)
+    same = all(torch.equal(a, b) for a, b in zip(st.factors, fs)) and st.orthogonality_center == c["center"]
+    return {"T": [[complex(x) for x in row] for row in res.tolist()], "occ": [float(x) for x in occ.tolist()],
+            "qr_calls": n1, "state_unchanged": same, "dtype": str(res.dtype)}
+
+
+def exprs_obs(c, r):
+    fs = _factors_of(c)
+    ops = "[" + ";".join("[" + ";".join("[" + ";".join(f"({a},{b})" for a, b in row) + "]" for row in op) + "]"
+                         for op in c["ops"]) + "]"
+    ch = f"(t3s_of_raw {raws(fs)})"
+    e = (f"let A := {ch} in (expect_batch gi_ops {c['oracle']} {_nat(c['center'])} A (ops_of_raw {ops}), "
+         f"occupation gi_ops {c['oracle']} {_nat(c['center'])} A)")
+    wantT = ("Some", [[(int(z.real), int(z.imag)) for z in row] for row in r["T"]])
+    return e, wantT
+
+
+def oracle_obs(ctx, c, r):
+    """definition on the same data (exact integers): for a truthful centre and a Gram-preserving R the table is
+    <psi|O_q|psi>; whatever the chain, expect_batch must not modify the state and calls qr once per non-centre site"""
+    import torch
+    from props.c11 import site_op
+
+    def bad(what, key):
+        ctx.violation(what, {"case": c, "finding_key": key})
+
+    if r["dtype"] != "torch.complex128":
+        bad(f"expect_batch returns {r['dtype']}", "observable-dtype")
+    if not r["state_unchanged"]:
+        bad("expect_batch changed the factors or the declared orthogonality centre", "mps-state-changed")
+    if r["qr_calls"] != c["n"] - 1:
+        bad(f"expect_batch factorised {r['qr_calls']} matrices on {c['n']} sites", "expect-batch-sweep")
+    if c["canonical"]:
+        psi = dense_chain(_factors_of(c))
+        for q in range(c["n"]):
+            for i, op in enumerate(c["ops"]):
+                O = torch.tensor([[complex(*z) for z in row] for row in op], dtype=torch.complex128)
+                want = complex((psi.conj() * site_op(psi, O, q)).sum())
+                if r["T"][q][i] != want:
+                    bad(f"expect_batch[{q}][{i}] = {r['T'][q][i]} on a canonical chain (centre {c['center']}), "
+                        f"<psi|O_q|psi> = {want}", "mps-occupation")
+                    return
+        p = (psi.real ** 2 + psi.imag ** 2)
+        for q in range(c["n"]):
+            want = float(p.movedim(q, 0)[1].sum())
+            if r["occ"][q] != want:
+                bad(f"mps occupation of site {q} is {r['occ'][q]}, Born sum {want}", "mps-occupation")
+                return
 
 
 def ext_index_check(ctx, L):
@@ -1395,8 +1590,8 @@ def corpus_cases():
 def run(ctx):
     from vlib.coqparse import parse
 
-    rc, out = common.coq_make(["Model/SvObs.vo", "Model/MpsPad.vo"])
-    ctx.obligation("build:Model/SvObs.vo Model/MpsPad.vo", rc == 0, out, kind="build")
+    rc, out = common.coq_make(["Model/SvObs.vo", "Model/MpsPad.vo", "Model/MpsObs.vo"])
+    ctx.obligation("build:Model/SvObs.vo Model/MpsPad.vo Model/MpsObs.vo", rc == 0, out, kind="build")
     model_ok = rc == 0
     common.standard_proof_stage(ctx, "C13", ["Properties/C13.vo"])
 
@@ -1476,6 +1671,20 @@ def run(ctx):
             i = ev_mps.add(f"map (fun m => map (ext_index m) (seq 0 {_nat(L + 1)})) {masks}")
             idx_rows[i] = (L, [[("Some", e) if e is not None else None for e in row] for _, row in rows])
     i_none = ev_mps.add("get_extended_site_index [true; false] None") if model_ok else None
+    # MPS.expect_batch / qubit_occupation_mps_impl under integer QR oracles (Model/MpsObs.v)
+    ev_obs = common.CoqEval("C13obs", HEADER_OBS)
+    pend_obs = []
+    for i in range(ctx.n(36, 300)):
+        c = gen_obs_case(rng, canonical=(i % 3 == 0))
+        r = impl_obs(c)
+        oracle_obs(ctx, c, r)
+        h(f"mps_expect/{'canonical' if c['canonical'] else 'non-canonical'}/{c['oracle']}/d={c['d']}")
+        h(f"mps_expect/n={c['n']}/centre={c['center']}")
+        ctx.count_case({k: c[k] for k in ("kind", "d", "n", "center", "canonical", "oracle", "ops")} |
+                       {"f": c["factors"][:2]}, True)
+        if model_ok:
+            e, want = exprs_obs(c, r)
+            pend_obs.append((c, r, ev_obs.add(e), want))
 
     corr_ok, detail = model_ok, "" if model_ok else "model does not build"
     n_cmp = 0
@@ -1507,6 +1716,26 @@ def run(ctx):
                 corr_ok, detail = False, f"get_extended_site_index None case: model {v}"
         except (common.CoqEvalError, ValueError) as ex:
             corr_ok, detail = False, str(ex)
+    obs_ok, obs_detail, n_obs = model_ok, "" if model_ok else "model does not build", 0
+    if model_ok:
+        try:
+            outs = ev_obs.run(shard=25 if th else 9, jobs=12)
+            for c, r, idx, want in pend_obs:
+                v = _norm(parse(outs[idx]))
+                n_obs += 1
+                got_T, got_occ = v[0], v[1]
+                occ_model = [float(z[0]) for z in got_occ[1]] if isinstance(got_occ, list) and got_occ[0] == "Some" else None
+                if (got_T != _norm(want) or occ_model != r["occ"]) and obs_ok:
+                    obs_ok = False
+                    obs_detail = (f"expect_batch/occupation: model {str(v)[:400]} real {str(want)[:300]} occ {r['occ']}; "
+                                  f"case={json.dumps(c)[:900]}")
+                    ctx.extra["first_disagreement_obs"] = {"case": c, "model": str(v)[:2000], "real": str(want)[:2000]}
+        except (common.CoqEvalError, ValueError) as ex:
+            obs_ok, obs_detail = False, str(ex)
+    ctx.obligation("correspondence:Model.MpsObs.expect_batch/occupation==MPS.expect_batch/qubit_occupation_mps_impl "
+                   "(exact on Gaussian integers, torch.linalg.qr interposed by the integer oracles qr_id / qr_mix; canonical "
+                   "and non-canonical chains, every centre)", obs_ok, obs_detail, kind="correspondence")
+    ctx.extra["tie_mps_obs"] = {"exact_comparisons": n_obs}
     ctx.extra["tie"] = {"exact_comparisons": n_cmp}
     ctx.extra["precision_stream"] = {"tolerance_rel": PREC, "worst_rel_error": prec_worst[0]}
     ctx.extra["input_distribution"] = dict(sorted(hist.items()))
@@ -1516,7 +1745,11 @@ def run(ctx):
     ctx.rule = ("exact: Gaussian-integer state vectors N<=5 (6), density matrices N<=4 (5), Hermitian and "
                 "non-Hermitian integer matrices as Hamiltonian (D<=8), Gaussian-integer MPS/MPO chains with 0-5 good and "
                 "0-3 dark atoms (random / leading / trailing / adjacent masks, 15% wrong factor counts), every mask "
-                "of length <= 6 (8) for the site index; falsifier: random complex unnormalised/normalised state "
+                "of length <= 6 (8) for the site index; MPS.expect_batch / qubit_occupation_mps_impl on Gaussian-integer "
+                "chains of 2-5 qubits / 2-4 qutrits, bonds 1-3, every declared centre, 1-3 random operators, "
+                "torch.linalg.qr replaced by the integer oracles R = M (Gram-preserving) and a deliberately wrong R; one "
+                "third canonical chains (unit-phase isometries around a random centre) on which the table must equal the "
+                "dense <psi|O_q|psi> exactly; falsifier: random complex unnormalised/normalised state "
                 "vectors (N 1-8), density matrices (N 1-5), non-canonical MPS (qubit 2-8, qutrit 2-5 atoms, random "
                 "bonds 1-4, orthogonality centre None or any site) with the real Hamiltonian objects, and "
                 "entanglement entropy at every cut of fresh states with redundant bonds (fat / zero-padded / gauged / "
@@ -1529,15 +1762,21 @@ def run(ctx):
                 "(always: the sweep 2 dims x 6 mask kinds x 2 classes x 4 norms; a probe observable records the state "
                 "object handed to the callbacks); non-trivial = at least 2 atoms (padding: at least one dark atom); "
                 "distinct by input hash")
-    ctx.trusted_base += ["hand-written Gallina models coq/Model/SvObs.v, coq/Model/MpsPad.v (F2/F3 semantics of torch "
-                         "views and contractions), validated by the exact correspondence on every run",
+    ctx.trusted_base += ["hand-written Gallina models coq/Model/SvObs.v, coq/Model/MpsPad.v, coq/Model/MpsObs.v (F2/F3 "
+                         "semantics of torch views and contractions), validated by the exact correspondence on every run",
                          "numpy / torch dense linear algebra for the falsifier references (tools/props/_dense_ref.py)"]
     ctx.assumptions += ["`torch.linalg.vector_norm(x) ** 2` is modelled as sum |x_k|^2: for the exact comparison the "
                         "module's name `torch` is rebound to a proxy returning the exact sum of squares; the unmodified "
                         "functions are compared with tolerance 1e-9 (relative to |psi|^2)",
                         "the Hamiltonian object is an arbitrary matrix in the energy theorems (duck-typed stub in the "
                         "exact tie; real RydbergHamiltonian / RydbergLindbladian / MPO objects in the falsifier)",
-                        "MPS expectation values, correlation matrix (QR inside) and entanglement entropy (SVD) are "
+                        "torch.linalg.qr inside MPS.expect_batch is an oracle of the model (only R is used): proved is that "
+                        "the table depends on R only through R^dagger R (any Gram-preserving QR gives the table of R = M); "
+                        "for the exact tie emu_mps.mps.torch is rebound to a proxy whose linalg.qr returns the integer "
+                        "oracle's R; the orthogonality_center=None branch (orthogonalize(0) first) is not modelled",
+                        "that the table equals <psi|O_q|psi> when the declared centre is truthful is checked exactly on "
+                        "Gaussian-integer canonical chains and at 1e-9 by the falsifier, not proved; "
+                        "correlation matrix (QR inside) and entanglement entropy (SVD) are "
                         "validated, not proved: tolerance 1e-9 * scale; H^2 through MPO @ MPO truncates at 1e-5, "
                         f"tolerance 1e-9 * ||H||^2 + {TOL_MPO2} * sites (absolute, normalised state)",
                         "states with a declared orthogonality centre are produced by MPS.orthogonalize (a false "
@@ -1566,15 +1805,24 @@ def replay(ctx, path):
 
 META = {
     "category": "proof",
-    "technique": "Coq proofs over arbitrary commutative rings with involution (all N, all masks; ranges over C) + exact "
-                 "dyadic/Gaussian-integer correspondence of the Gallina models with the torch code + dense falsifier",
+    "technique": "Coq proofs over arbitrary commutative rings with involution (all N, all masks, all chains; ranges over C; "
+                 "QR as a Gram-preserving oracle) + exact dyadic/Gaussian-integer correspondence of the Gallina models with "
+                 "the torch code (torch.linalg.qr interposed by integer oracles) + dense falsifier",
     "text": ("Proved for every N: state-vector and density-matrix occupation / correlation callbacks compute the Born "
              "sums over the basis states with the selected bits set (symmetric, diagonal = occupation, = <n_i>), in "
              "[0,1] for normalised states; energy second moment / variance equal <H^2>, <H^2>-<H>^2 for Hermitian H, "
              "variance = ||(H-<H>)psi||^2 >= 0; tr(H(H rho)) = tr(rho H^2). Proved for every mask and chain: the "
              "dark-atom padding of MPS and MPO gives psi (x) |g..g> resp. O (x) 1 amplitude by amplitude, and the "
-             "extended site index is the position of the k-th True. Validated, not proved: MPS expectation values, "
-             "correlation matrix, entropy (QR/SVD) against dense formulas; that the models are the torch code."),
+             "extended site index is the position of the k-th True. Proved for every chain with fitting bonds, every "
+             "declared centre and every batch of one-site operators (C13_mps_expect_batch_gauge, C13_mps_qr_step_gram; "
+             "non-vacuity C13_mps_expect_batch_gauge_nonvacuous): the table of MPS.expect_batch (Model/MpsObs.v, both "
+             "sweeps, torch.linalg.qr an oracle) depends on the R factors only through R^dagger R, so every "
+             "Gram-preserving QR gives the table of R = M (no factorisation). Tied exactly: expect_batch and "
+             "qubit_occupation_mps_impl under integer QR oracles on canonical and non-canonical Gaussian-integer chains; "
+             "on the canonical ones the table equals the dense <psi|O_q|psi> exactly (oracle, not proved). Validated, not "
+             "proved: equality of MPS expectation values with the dense formula under the canonical-form premise, "
+             "correlation matrix, MPO.expect, entropy (QR/SVD) against dense formulas; that the models are the torch code."),
     "note": ("Trusted: Coq kernel+VM, stdlib real-number axioms (ranges only), the hand-written models (tied exactly on "
-             "every run), exactness of float64 on small Gaussian integers, numpy references."),
+             "every run), exactness of float64 on small Gaussian integers, numpy references; that LAPACK's QR preserves "
+             "the Gram matrix up to rounding (hypothesis qr_gram_ok of the expect_batch theorems)."),
 }
